@@ -32,7 +32,7 @@ CLAIM = dict(
           "the Lean allocator must hand out the same offsets and table sizes as the real one for the same request sizes."),
     note=("For tables outside the fragment F0' (multipass, match, hyphenation, emphasis, base/context re-filing, display maps) and "
           "for all raw-image clauses the claim rests on running the proved checkers on each real image, not on a theorem about the "
-          "C compiler. Pointers held across a relocation are a C-level matter observed by ASan in the same runs. Known finding F6: "
+          "C compiler. Pointers held across a relocation are a C-level matter observed by ASan in the same runs. Finding F6 (repaired in /repo): "
           "an undefined grouping/swap name after a valid one embeds rule reference 0."),
     technique="Lean 4 proofs (allocator invariant, checker soundness, compile-model invariant) + translation validation of real images",
     design="DESIGN.md §7 C12")
@@ -436,11 +436,14 @@ def run(tier):
     v.obligation("protocol: every DUMP / RAWDUMP of a compiled table is understood by the Lean driver", not proto_bad,
                  "\n".join(proto_bad[:4]))
     # ---- expectations that keep the search honest
+    # F6 (fixed in /repo 8ca2e784): an undefined grouping / swap name after a valid one is now a compile error.  Should such
+    # a table compile again, checkImage must flag the embedded reference 0 (and the violation is reported as usual).
     f6 = [c for c in cases if c.id.startswith("fix-f6")]
-    hit = any(re.search(f["signature"], "C12:passref:zero:grouping") for f in v.findings) and v.known_hits
-    seen_f6 = hit or any(s.startswith("C12:passref:zero") for s, _, _ in v.violations)
-    v.obligation("the F6 witnesses (reference 0 embedded after an undefined grouping / swap name) are detected by checkImage",
-                 bool(f6) and bool(seen_f6), "the checker did not flag the F6 witness tables")
+    rejected = [c for c in f6 if c.out and c.out[0].startswith("C 0")]
+    seen_f6 = any(s.startswith("C12:passref:zero") for s, _, _ in v.violations)
+    v.obligation("the F6 witness tables (undefined grouping / swap name after a valid one) are rejected by the compiler, or else "
+                 "flagged by checkImage", bool(f6) and (len(rejected) == len(f6) or seen_f6),
+                 "the witness tables compile and the checker did not flag them")
     need = want_reallocs
     short = [c.id for c in cases if c.meta["kind"] == "additions" and c.meta["base"] != "boundary" and (c.fault or c.meta.get("reallocs", 0) < need)]
     v.obligation("every addition sequence runs to its end and forces the image to grow through several reallocations", not short, "faulted or too few: %s" % short)
